@@ -15,17 +15,17 @@ CLAIMED = {
     "C01": ("numeric-operator discipline over MIR (release semantics) + guarded-construction and guard rules over typed HIR",
             "Decides the overflow-safety shape of the integer evaluator: every raw wrapping operator and narrowing/sign-changing cast on machine integers inside the evaluator scope is on a closed, reasoned table; every checked_* has a data-dependent fallback; unchecked fixnum builders are the listed ones; the 56-bit range constants fit the encoding; every functor of the statement is evaluable in both evaluators; every integer division sits behind a zero-divisor test; non-commutative operations keep operand order in every representation pair. Does not decide that an implementation computes the right number."),
     "C02": ("classify-before-return rule (RF3) over typed HIR + guard table + operand-order rule",
-            "Decides that no float-producing operation of the arithmetic modules escapes the finiteness classifier, that the classifier maps infinite/NaN to the two evaluation errors, that the undefined/zero-divisor guards named in the statement precede the operations they protect, and that Number/Number keeps operand order in all 16 representation pairs. Numerical values are not decided."),
+            "Decides that no float-producing operation of the arithmetic modules escapes the finiteness classifier, that the classifier maps infinite/NaN to the two evaluation errors, that the undefined/zero-divisor guards named in the statement precede the operations they protect, that Number/Number keeps operand order in all 16 representation pairs, and that the table storing each float once does not identify the two zeros (decided and fails: recorded known finding). Numerical values are not decided."),
     "C07": ("exhaustiveness + sibling agreement of Call/Execute/Default twins over typed HIR; or-frame effect table",
-            "Decides two machine-level necessary conditions: every instruction has exactly one handler and the twins of each builtin family run the same work, differing only in continuation (p += 1 vs p = cp) and inference counting; no handler steps to the next instruction unconditionally after a builtin that can set the fail flag or throw; choice-point frames are written and restored field for field. The compiler half of the property (register allocation, variable classification, disjunction chunking) is not decided."),
+            "Decides two machine-level necessary conditions: every instruction has exactly one handler and the twins of each builtin family run the same work, differing only in continuation (p += 1 vs p = cp) and inference counting; no handler steps to the next instruction unconditionally after a builtin that can set the fail flag or throw; choice-point frames are written and restored field for field; the Call<X> and Execute<X> arms of the 283 inlined builtins are the same code up to the continuation; and the one compiler-half clause that is decided: the condition of ->/2 and the argument of \\+/1 get a cut point of their own in both implementations of the control constructs (clause compiler and dispatch_prep_/3). The rest of the compiler half (register allocation, variable classification, disjunction chunking) is not decided."),
     "C09": ("sibling agreement of liveness tests, must-pass-through of clock ticks (MIR CFG), save/restore ordering of the call generation (typed HIR)",
-            "Decides the structure of the logical-update-view protocol: all liveness tests are birth < cc && Finite(cc) <= death; every assert/retract path ticks the clock before returning; stamps come from the clock; cc is read from the clock only on a first call, saved with the choice point, and reloaded from it before the first liveness test on backtracking. Answer sequences are not decided."),
+            "Decides the structure of the logical-update-view protocol: all liveness tests are birth < cc && Finite(cc) <= death; every assert/retract path ticks the clock before returning; stamps come from the clock; cc is read from the clock only on a first call, saved with the choice point, and reloaded from it before the first liveness test on backtracking; of the dynamic choice instructions only the outer-entry ones take a new generation; the saved position inside a first-argument choice sequence advances from the entry executed; lines of a dynamic predicate's indexing code never move (a call iterating them remembers the line); append and prepend locate an indexed block's choice instruction the same way; a handler that finds no living clause removes the choice point that led back to it. asserta during iteration of one key shifts the saved position: decided and fails, recorded known finding. Answer sequences are not decided."),
     "C10": ("who-may-call (single binding hook) over call facts, control dependence in bind_with_occurs_check, wiring tables",
-            "Decides that under the occurs-check unifiers no binding bypasses the check (the generic unifier binds only through the overridable hook, never through the raw binders or direct cell writes), that the check's flag controls the bind and is reported, that the three occurs_check modes are wired to the three unifiers, and that every per-shape helper has the variable arms. The worklist algorithm is not decided."),
+            "Decides that under the occurs-check unifiers no binding bypasses the check (the generic unifier binds only through the overridable hook, never through the raw binders or direct cell writes), that the check's flag controls the bind and is reported, that the three occurs_check modes are wired to the three unifiers, that every per-shape helper has the variable arms, that instruction handlers act on a failed occurs check before stepping and bind through the checked binder, that structure arguments are read only after the functor cell, and that an arena constant unifies only with itself or a variable. The worklist algorithm is not decided."),
     "C11": ("write/trail pairing, trail-tag round-trip, condition table, or-frame effect table over typed HIR",
-            "Decides that every cell write in a trailing function is paired with a trail call of the matching kind, that the trail conditions compare with hb/b strictly, that every trail entry tag pushed is undone by an arm restoring the matching self-reference in reverse order, that bb_b_put distinguishes its three states, who may call unwind_trail, and that choice points are saved/restored field for field. Which goals create choice points is not decided."),
+            "Decides that every cell write in a trailing function is paired with a trail call of the matching kind, that the trail conditions compare with hb/b strictly, that every trail entry tag pushed is undone by an arm restoring the matching self-reference in reverse order, that bb_b_put distinguishes its three states and stores no reference into the stack, that no caller skips a trail call because of what it sees in the trail, that functions writing heap/stack cells either trail or are on a reasoned table, who may call unwind_trail, and that choice points are saved/restored field for field. Which goals create choice points is not decided."),
     "C12": ("goal-order rules over the catch/throw clauses of builtins.pl (plread), effect summaries of the Rust exception primitives (typed HIR, MIR order), who-may-build-a-thrown-error over every Err(..) of type Result<_, MachineStub>",
-            "Decides the control skeleton of catch/3 and throw/1 and the form of builtin errors: throw/1 stores the thrown term (an instantiation error for an unbound ball) before it unwinds; catch/3 captures the outer block before installing its own; the recovery clause restores the outer block, fetches a copy of the ball, parks it and hands it to handle_ball/3, which unifies ball and catcher in its head, commits and calls the recovery, or restores the ball and unwinds again; set_ball stores a copy, unwind_stack cuts to the innermost block and fails, the block and ball-stack primitives do what those clauses need; every error a builtin raises (266 Err(stub) sites, 65 Err(generator) sites, 371 direct throws) is built by error_form, i.e. is error(Formal, Context). setup_call_cleanup/3's exactly-once clause and the undoing of bindings (C11) are not decided here."),
+            "Decides the control skeleton of catch/3 and throw/1 and the form of builtin errors: throw/1 stores the thrown term (an instantiation error for an unbound ball) before it unwinds; catch/3 captures the outer block before installing its own; the recovery clause restores the outer block, fetches a copy of the ball, parks it and hands it to handle_ball/3, which unifies ball and catcher in its head, commits and calls the recovery, or restores the ball and unwinds again; set_ball stores a copy, unwind_stack cuts to the innermost block and fails, the block and ball-stack primitives do what those clauses need; every error a builtin raises (266 Err(stub) sites, 65 Err(generator) sites, 371 direct throws) is built by error_form, i.e. is error(Formal, Context); every cut that prunes choice points gives the installed cleanups a chance to run, and the loops running pending cleanups go on when one fails. The rest of setup_call_cleanup/3's Prolog driver and the undoing of bindings (C11) are not decided here."),
     "C25": ("goal-order and variable-plumbing rules over the findall/forall clauses (plread) + effect summaries of the lifted-heap primitives (typed HIR)",
             "Decides the collection protocol under every all-solutions predicate: findall/3 and findall/4 remember the length of the solution store before iterating, iterate under catch/3 and on an error cut the store back to that length and re-throw; the iteration predicate calls the goal, copies the template to the store after each solution and fails back; its last clause hands over what was collected since the remembered length; forall/2 is \\+ (G, \\+ T); '$copy_to_lh' stores a copy, '$get_lh_from_offset[_diff]' copies back and cuts the store to the offset given; bagof/3 and setof/3 are the same goal sequence up to keysort/2 vs sort/2, order the pairs after the variant witnesses were made identical, and group by the free variables minus the ^-quantified ones (set difference by identity). The grouping algorithm itself (split_by_variant), countall/2 and call_nth/2 are not decided."),
     "C03": ("table agreement between the two evaluators over typed HIR (custom rustc driver)",
@@ -33,9 +33,9 @@ CLAIMED = {
     "C04": ("oracle-table and sibling-agreement rules over typed HIR (custom rustc driver)",
             "Decides that the six comparison predicates are the six correct outcome sets of one ordering function in all 24 instruction variants and in the generated name/variant tables, and that Ord/PartialEq for Number have one explicit arm per representation pair, go through f64 exactly when a float is involved, and agree arm by arm."),
     "C05": ("guarded-construction rule (RF3/RF4) over typed HIR + whole-crate call facts",
-            "Decides that every arena allocation of a big integer sits in the failure branch of a small-integer range test (computed integers are canonical) or is a recorded exception, and that the cross-representation consumers have arms for every integer encoding."),
+            "Decides that every arena allocation of a big integer sits in the failure branch of a small-integer range test (computed integers are canonical) or is a recorded exception, that the cross-representation consumers have arms for every integer encoding, and that a clause keyed by an integer with two spellings continues each key's choice sequence by that sequence's own length."),
     "C06": ("routing-table rule over typed HIR + MIR dominance for float interning + who-may-call",
-            "Decides that first-argument index keys are compared by value: only tag classes with one bit pattern per value reach the constant hash table, floats are interned by value before allocation, lookup sites look up the cell they dispatched on, and index construction/removal use the same key functions."),
+            "Decides that first-argument index keys are compared by value: only tag classes with one bit pattern per value reach the constant hash table, floats are interned by value before allocation, lookup sites look up the cell they dispatched on, index construction/removal use the same key functions, a two-clause choice sequence follows the direction of the insertion, and the try/retry kind of an entry comes from the emptiness of the sequence it is pushed onto."),
     "C13": ("oracle-table / key-type rules over typed HIR and type facts",
             "Decides the category order, the tag->category table, the key type compared per category ((arity,name) for compounds, textual atoms), the Ordering->TermPair->Option<Ordering>->atom translations and the outcome sets of the 24 term-comparison arms. The argument traversal is not decided."),
     "C14": ("effect-summary rule over typed HIR (resolved std sort callee)",
@@ -47,17 +47,17 @@ CLAIMED = {
     "C18": ("panic budget of the decoder scope, guarded-range rule, enum-dispatch sibling agreement of Stream's input methods",
             "Decides that chunk boundaries and truncated input cannot reach a new panicking construct in CharReader or a CharRead/Read impl, that every constant-bounded range used to drain/slice the decode buffer is inside a branch establishing the bound, that peek/read/put_back/consume/read forward for the same stream kinds (each feature configuration in the thorough tier), and that the consuming reads skip the invalid bytes they report (so the characters after an invalid sequence are delivered) while no peek goes through the skipping entry. The decoded values are not decided."),
     "C19": ("enum-dispatch sibling agreement over `Stream`, who-may-consume rule for peek builtins, inverse-table agreement",
-            "Decides the interface clauses: every stream kind is handled consistently across the input, output, line-count and past-end sibling groups; peek_char/peek_code/peek_byte call no consuming stream method; the eof_action atom tables are mutually inverse. Payload round-trips and position values are not decided."),
+            "Decides the interface clauses: every stream kind is handled consistently across the input, output, line-count and past-end sibling groups; peek_char/peek_code/peek_byte call no consuming stream method; the eof_action atom tables are mutually inverse; the three places that classify a position against the length agree that only beyond the length is past the end; the character-level readers count the newlines they consume; and the end of the input after nothing but layout is end_of_file, not the end of a partial term. Payload round-trips and position values are not decided."),
     "C20": ("exhaustive-sibling rule over every HeapCellValueTag match; sibling agreement inside compare_pstr_slices",
-            "Decides the representation clause: every tag dispatch that names the list cell also names the packed-string cell (and conversely) or is a reasoned exception, and every tail index returned by the string-segment comparison is computed from the same slice's scanned tail and cell offset. Offset arithmetic elsewhere is not decided."),
+            "Decides the representation clause: every tag dispatch that names the list cell also names the packed-string cell (and conversely) or is a reasoned exception, and every tail index returned by the string-segment comparison is computed from the same slice's scanned tail and cell offset; the walkers that turn a string into a list continue in both spellings; two strings are ordered by whole code points (the decoding window spans a UTF-8 sequence); a structure cell is taken for a list cell only after its functor was read. Offset arithmetic elsewhere is not decided."),
     "C21": ("table agreement between the build-script crate and atom_table.rs; who-may-fabricate atoms; lookup-dominates-allocation (MIR)",
             "Decides that the inline/interned split, its length constant and its bit encoding are the same function of the text at build time and at run time, that raw atom values are fabricated only at listed decoders, that interning looks the text up before allocating, and that table hash/equality and atom order go through the text."),
     "C28": ("must-pass-through and dominance over MIR CFGs of QueryState::next / Machine::run_query; stub-frame effect table",
             "Decides the acquire/release structure of an embedded query: the ball is copied with alignment and cleared on every reporting path, the stub choice point is fully initialised (heap mark = current top) and pushed before the goal starts, the success continuation is set, the end test compares with this query's stub, and Drop releases relative to that stub. Answer contents are not decided."),
     "C30": ("type-resolved escape-hatch rule over every Result<_, AllocError> expression in the crate",
-            "Decides error discipline over every allocation site: no value of type Result<_, AllocError> is unwrapped, expect'ed, optioned, tested-and-dropped or discarded outside the reasoned exception table; resource errors are thrown from the pre-allocated term in one place; a failed growth leaves the capacity unchanged; the term copier puts the source term's cells back on every exit, including the allocation-failure exits (must-pass-through over its MIR CFG)."),
+            "Decides error discipline over every allocation site: no value of type Result<_, AllocError> is unwrapped, expect'ed, optioned, tested-and-dropped or discarded outside the reasoned exception table; resource errors are thrown from the pre-allocated term in one place; a failed growth leaves the capacity unchanged; the term copier puts the source term's cells back on every exit, including the allocation-failure exits (must-pass-through over its MIR CFG), and records every mark in its trail before anything that can fail; every choice point records the current heap top."),
     "C31": ("loop-structure rule over typed HIR of both dispatch loops; MIR order of swap/throw/backtrack; accessor table of the INTERRUPT static",
-            "Decides the polling structure: both instruction loops poll on every outer cycle after an inner loop bounded by a wrapping u8 counter, no labelled continue skips the poll, the poll clears the flag atomically and raises through throw+backtrack, and only the signal handler sets the flag. Timing is not decided."),
+            "Decides the polling structure: both instruction loops poll on every outer cycle after an inner loop bounded by a wrapping u8 counter, no labelled continue skips the poll, the poll clears the flag atomically and raises through throw+backtrack, (or, if the poll only throws, every poll site tests the result and backtracks), a poll that backtracks is called only where the next thing is a dispatch on p (builtins that wait return the interrupt as their error), the poll is not taken while the block register names a popped frame, and only the signal handler sets the flag. Timing is not decided."),
     "C32": ("dominance rules over the MIR CFG of AtomTable::build_with; who-may-call for atom-table mutators",
             "Decides the lock discipline: every mutation of the shared atom table is dominated by the update lock and by the re-validation of both snapshots (allocation epoch and atom-list epoch), a detected race retries without mutating, the text is written before the set is published, the lock is released after the last publication, the inline fast path is lock-free, and nobody else mutates the table. arcu's interleaving semantics are trusted."),
     "C33": ("guarded raw write by linear arithmetic with case splits over typed HIR; section construction and reserve/size-function pairing",
@@ -65,13 +65,13 @@ CLAIMED = {
     "C34": ("call-graph SCC table and recursive-type table (RF8)",
             "Decides that no native recursion proportional to term size exists outside the triaged tables: every call-graph cycle and every recursive data type (whose drop/clone glue recurses) is listed with a bound or as a finding. parser::ast::Term's glue recursion is a recorded known finding (deep/long terms overflow the native stack)."),
     "C37": ("name/implementation agreement per atom-keyed arm; Prolog fact list vs Rust arms; base64 option table",
-            "Decides the algorithm-selection clause: each algorithm atom constructs the hasher/constant it names, crypto.pl's hash_algorithm/1 facts equal the implemented set, and chars_base64 options select the matching engine (or a hand-built configuration sets decode padding together with encode padding). Byte-level results are the libraries'."),
+            "Decides the algorithm-selection clause: each algorithm atom constructs the hasher/constant it names, crypto.pl's hash_algorithm/1 facts equal the implemented set, and chars_base64 options select the matching engine (or a hand-built configuration sets decode padding together with encode padding), and the constants of the UTF-8 encoder and decoder of chars_utf8bytes/2 are those of RFC 3629 and agree with each other. Byte-level results of the hash and base64 crates are the libraries'."),
     "C43": ("Prolog clause tables (plread) vs Rust decoder/encoder; validators-before-'$op'; priority-0 filter in every table reader",
-            "Decides the validation tables: specifier atoms agree across Prolog, Rust decoder and encoder; priority bounds are 0..1200; ',' [] {} are refused and '|' restricted in both the atom and the list form; every '$op' is preceded by the validators; priority 0 removes and every reader of the table skips priority-0 entries; current_op's direct lookup needs all arguments bound. Histories are not decided."),
+            "Decides the validation tables: specifier atoms agree across Prolog, Rust decoder and encoder; priority bounds are 0..1200; ',' [] {} are refused and '|' restricted in both the atom and the list form; every '$op' is preceded by the validators; priority 0 removes and every reader of the table skips priority-0 entries; current_op's direct lookup needs all arguments bound; OpDecl::submit answers Ok only after writing and writes only after both halves of the infix/postfix exclusion were tested; the list form checks the exclusion for all names first; who writes the table without submit (three loader functions do: recorded known finding). Histories are not decided."),
     "C44": ("clause-table agreement (plread) between current_prolog_flag/2, set_prolog_flag/2 and the Rust getters/setters",
             "Decides that each flag is produced the same way when given and when enumerated (binding, not comparing), that read-only flags accept exactly their own value, that Prolog atoms, Rust setter atoms and getter atoms coincide and are mutually inverse, that bad values end in flag_value domain errors, that both predicates end with the flag/type error clauses, and that the occurs_check setters install objects reporting the set value and head unification honours the flag."),
     "C50": ("sibling agreement of in-memory and stream read/write paths over typed HIR and the call graph",
-            "Decides the shared-core clause: write_term and write_term_to_chars take their printer from the same constructor with the same operator table; stream and from-chars readers use the same parser entry, operator source, heap writer and option writers on success and on end of input. Equality of results beyond sharing is not decided."),
+            "Decides the shared-core clause: write_term and write_term_to_chars take their printer from the same constructor with the same operator table; stream and from-chars readers use the same parser entry, operator source, heap writer and option writers on success and on end of input; the names write_term_to_chars/3 fabricates for unnamed variables are distinct (one radix for letter and suffix, counter advanced past the name taken). Equality of results beyond sharing is not decided."),
     "C55": ("printer/lexer character-class agreement from macro-expansion origins; special-case tables",
             "Decides that the printer's unquoted-atom decision uses the lexer's classes for first character and continuation, that the only special graphic starts are '/*' and a lone '.', that [] and {} are the only bracket atoms, and that the solo characters needing quotes are the oracle list. Spacing and operator printing are not decided."),
 }
